@@ -3,6 +3,7 @@ package main
 
 import (
 	"fmt"
+	"time"
 
 	"verifharness/lib"
 )
@@ -14,20 +15,29 @@ func main() {
 		"List/OrderedMap operation on any earlier value), every result compared with the immutable-sequence / insertion-ordered-map " +
 		"reference and all query methods with the element walk; non-trivial = merges into / deletes from / looks up in a non-empty " +
 		"hash, or changes a non-empty array, or parses a literal with more than one entry. " +
+		"Arrays of arbitrary values (values without a hash key: Object instances, Sensitive, TypedName, Deferred; NaN): every array of <= 3 " +
+		"elements x every list of <= 2 doomed values through DeleteAll / Delete in turn / Any, random histories of Delete, DeleteAll, " +
+		"Reject, Select, Any, Add, AddAll, Equals, results compared element by element by identity; non-trivial = holds such a value. " +
 		"StringHash: all histories of length<=L over a 16-operation mutating alphabet on 4 keys (bounded-exhaustive, " +
 		"full observation after every step) + all iterations (5 kinds) of hashes of <= 4 entries and 3-4 capacities whose callback " +
 		"re-enters the hash (Delete / Put / ComputeIfAbsent at each call, every sequence) + seeded random multi-object histories; " +
 		"a history is non-trivial when it " +
 		"contains a Delete of a present key that is not the last entry, or a mutation of a frozen hash, or a Merge/PutAll " +
 		"with a non-empty operand, or a ComputeIfAbsent whose mapping function panics or re-enters the hash, or an iteration " +
-		"whose callback mutates the hash; " +
+		"whose callback mutates the hash, or a key associated with the value nil (family nil-values: every lookup of every key " +
+		"after every step); " +
 		"distinct = distinct operation sequences"
 	rng := lib.NewRng(cfg.Seed)
 	if cfg.Replay != "" {
 		replay(cfg, res)
 	} else {
+		t0 := time.Now()
 		runStringHash(cfg, res, rng)
+		res.Extra["stringhash_seconds"] = time.Since(t0).Seconds()
 		runColl(cfg, res, rng)
+		t0 = time.Now()
+		runSeq(cfg, res, rng)
+		res.Extra["seq_seconds"] = time.Since(t0).Seconds()
 	}
 	res.Write(cfg)
 }
@@ -39,7 +49,11 @@ func replay(cfg *lib.Config, res *lib.Result) {
 		Obligations: map[string]string{"stringhash_model": "sh_mismatches cases"}}
 	ccf := newCollCases()
 	kf := newKeyCases()
+	sf := newSeqCases()
 	defer func() {
+		if len(sf.Cases) > 0 {
+			res.CorrFiles = append(res.CorrFiles, sf.WriteTo(cfg.Out, "cases_seq"))
+		}
 		if len(ccf.Cases) > 0 {
 			res.CorrFiles = append(res.CorrFiles, ccf.WriteTo(cfg.Out, "cases_coll"))
 		}
@@ -55,6 +69,10 @@ func replay(cfg *lib.Config, res *lib.Result) {
 		lib.Remarshal(in, &x)
 		if x.Kind == "coll" {
 			replayColl(cfg, res, in, ccf)
+			continue
+		}
+		if x.Kind == "seq" {
+			replaySeq(cfg, res, in, sf)
 			continue
 		}
 		if x.Kind == "key" {
@@ -96,6 +114,11 @@ func shNontrivial(c shCase) bool {
 			}
 		case "Merge":
 			return true
+		case "GetOrDefault":
+			// a present key whose value is nil, asked with a default that is not
+			if !o.VN && c.outs[i] == "RVal (@None (val))" {
+				return true
+			}
 		case "Iter":
 			for _, a := range o.Acts {
 				if a.A != "" {
@@ -115,7 +138,9 @@ func runStringHash(cfg *lib.Config, res *lib.Result, rng *lib.Rng) {
 	nRandom := 3000
 	randomCoq := 300
 	iterCoq := 400
+	nilLen, nilCoq := 4, 250
 	if cfg.Thorough() {
+		nilLen, nilCoq = 5, 2000
 		iterCoq = 4000
 		maxLen = 5
 		coqBudget = 3000
@@ -185,6 +210,18 @@ func runStringHash(cfg *lib.Config, res *lib.Result, rng *lib.Rng) {
 		check(ops, j%iterStride == 0, "iter-reentrant")
 	})
 	res.Extra["stringhash_reentrant_iterations"] = nIter
+	// keys associated with the value nil, all lookups after every step
+	tNil := time.Now()
+	nNil := 0
+	shNilFamily(nilLen, func(ops []shOp) { nNil++ })
+	nilStride := nNil/nilCoq + 1
+	j = 0
+	shNilFamily(nilLen, func(ops []shOp) {
+		j++
+		check(ops, j%nilStride == 0, "nil-values")
+	})
+	res.Extra["stringhash_nil_value_histories"] = nNil
+	res.Extra["stringhash_nil_value_seconds"] = time.Since(tNil).Seconds()
 	for i := 0; i < nRandom; i++ {
 		r := rng.Fork()
 		check(randomShHistory(r, 5+r.Intn(40)), i < randomCoq, "random")
